@@ -84,7 +84,9 @@ def _clean_stale(keep_hash):
     for d in os.listdir(SCRATCH):
         if d.startswith(".") or d.startswith("tmp"):
             continue
-        if "-" in d and not d.endswith("-" + keep_hash):
+        # only directories named <variant>-<source hash> are builds; other scratch directories (work areas of plugins) stay
+        v, _, hh = d.rpartition("-")
+        if v and len(hh) == len(keep_hash) and all(c in "0123456789abcdef" for c in hh) and hh != keep_hash:
             p = os.path.join(SCRATCH, d)
             if os.path.isdir(p):
                 # do not remove a build that is younger than 20 minutes: a concurrent check of
